@@ -4,7 +4,6 @@ package main
 // block parser.
 
 import (
-	"strconv"
 	"fmt"
 	"go/ast"
 	"go/token"
@@ -14,6 +13,7 @@ import (
 	"path/filepath"
 	"regexp"
 	"sort"
+	"strconv"
 	"strings"
 	"sync"
 
@@ -212,6 +212,10 @@ func metricsOnly(m ...any) bool          { return true }
 
 // hasKey(m, k): map m has an entry for k. cur(x): the current value of a reassigned parameter / local.
 func hasKey[K comparable, V any](m map[K]V, k K) bool { _, ok := m[k]; return ok }
+
+// bufWrites(b) / bufLen(b): ghost counters of a bytes.Buffer (Write calls, bytes written).
+func bufWrites(b any) int { return 0 }
+func bufLen(b any) int    { return 0 }
 
 // mapLenSum(m): sum of the lengths of the slices stored in m.
 func mapLenSum[K comparable, V any](m map[K][]V) int {
